@@ -1,1 +1,444 @@
-// kani harnesses (included from /repo under cfg(kani))
+// C25-O1..O3: PropertyValue encode/decode round trips, decode panic-freedom and bounded allocation.
+// Included from /repo/nervusdb-api/src/lib.rs under cfg(kani).
+use super::*;
+
+// ---------------------------------------------------------------- O1: round trips (bit-exact)
+fn roundtrip_ok(v: &PropertyValue) -> bool {
+    let b = v.encode();
+    let d = PropertyValue::decode(&b);
+    let ok = match (&d, v) {
+        (Ok(PropertyValue::Float(g)), PropertyValue::Float(f)) => g.to_bits() == f.to_bits(),
+        (Ok(x), _) => x == v,
+        (Err(_), _) => false,
+    };
+    std::mem::forget((b, d));
+    ok
+}
+
+#[kani::proof]
+#[kani::unwind(12)]
+fn c25_o1_q_rt_null() {
+    let v = PropertyValue::Null;
+    let ok = roundtrip_ok(&v);
+    kani::cover!(true, "witness: reached");
+    assert!(ok, "roundtrip: decode(encode(v)) == v");
+}
+#[kani::proof]
+#[kani::unwind(12)]
+fn c25_o1_q_rt_bool() {
+    let v = PropertyValue::Bool(kani::any());
+    let ok = roundtrip_ok(&v);
+    kani::cover!(true, "witness: reached");
+    assert!(ok, "roundtrip: decode(encode(v)) == v");
+}
+#[kani::proof]
+#[kani::unwind(12)]
+fn c25_o1_q_rt_int() {
+    let v = PropertyValue::Int(kani::any());
+    let ok = roundtrip_ok(&v);
+    kani::cover!(true, "witness: reached");
+    assert!(ok, "roundtrip: decode(encode(v)) == v");
+}
+#[kani::proof]
+#[kani::unwind(12)]
+fn c25_o1_q_rt_float_bits() {
+    let f: f64 = kani::any();
+    let v = PropertyValue::Float(f);
+    let ok = roundtrip_ok(&v);
+    kani::cover!(f.is_nan(), "witness: NaN payloads reachable");
+    kani::cover!(f == 0.0 && f.is_sign_negative(), "witness: -0.0 reachable");
+    assert!(ok, "roundtrip: decode(encode(v)) == v");
+}
+#[kani::proof]
+#[kani::unwind(12)]
+fn c25_o1_q_rt_datetime() {
+    let v = PropertyValue::DateTime(kani::any());
+    let ok = roundtrip_ok(&v);
+    kani::cover!(true, "witness: reached");
+    assert!(ok, "roundtrip: decode(encode(v)) == v");
+}
+
+fn rt_string<const N: usize>() {
+    let a: [u8; N] = kani::any();
+    let mut i = 0;
+    while i < N {
+        kani::assume(a[i] < 0x80);
+        i += 1;
+    }
+    let v = PropertyValue::String(unsafe { String::from_utf8_unchecked(a.to_vec()) });
+    let ok = roundtrip_ok(&v);
+    std::mem::forget(v);
+    kani::cover!(true, "witness: reached");
+    assert!(ok, "roundtrip: decode(encode(v)) == v");
+}
+fn rt_blob<const N: usize>() {
+    let a: [u8; N] = kani::any();
+    let v = PropertyValue::Blob(a.to_vec());
+    let ok = roundtrip_ok(&v);
+    std::mem::forget(v);
+    kani::cover!(true, "witness: reached");
+    assert!(ok, "roundtrip: decode(encode(v)) == v");
+}
+macro_rules! rt_n {
+    ($name:ident, $f:ident, $n:expr, $u:expr) => {
+        #[kani::proof]
+        #[kani::unwind($u)]
+        fn $name() {
+            $f::<$n>();
+        }
+    };
+}
+rt_n!(c25_o1_q_rt_string_0, rt_string, 0, 12);
+rt_n!(c25_o1_q_rt_string_1, rt_string, 1, 12);
+rt_n!(c25_o1_q_rt_string_2, rt_string, 2, 12);
+rt_n!(c25_o1_t_rt_string_4, rt_string, 4, 16);
+rt_n!(c25_o1_q_rt_blob_0, rt_blob, 0, 12);
+rt_n!(c25_o1_q_rt_blob_1, rt_blob, 1, 12);
+rt_n!(c25_o1_q_rt_blob_2, rt_blob, 2, 12);
+rt_n!(c25_o1_t_rt_blob_4, rt_blob, 4, 16);
+
+#[kani::proof]
+#[kani::unwind(12)]
+fn c25_o1_a_rt_empty_list() {
+    let v = PropertyValue::List(Vec::new());
+    let ok = roundtrip_ok(&v);
+    std::mem::forget(v);
+    kani::cover!(true, "witness: reached");
+    assert!(ok, "roundtrip: decode(encode(v)) == v");
+}
+#[kani::proof]
+#[kani::unwind(12)]
+fn c25_o1_a_rt_empty_map() {
+    let v = PropertyValue::Map(BTreeMap::new());
+    let ok = roundtrip_ok(&v);
+    std::mem::forget(v);
+    kani::cover!(true, "witness: reached");
+    assert!(ok, "roundtrip: decode(encode(v)) == v");
+}
+#[kani::proof]
+#[kani::unwind(24)]
+fn c25_o1_a_rt_list_int_bool() {
+    let v = PropertyValue::List(vec![PropertyValue::Int(kani::any()), PropertyValue::Bool(kani::any())]);
+    let ok = roundtrip_ok(&v);
+    std::mem::forget(v);
+    kani::cover!(true, "witness: reached");
+    assert!(ok, "roundtrip: decode(encode(v)) == v");
+}
+#[kani::proof]
+#[kani::unwind(24)]
+fn c25_o1_t_rt_list_one_int() {
+    let v = PropertyValue::List(vec![PropertyValue::Int(kani::any())]);
+    let ok = roundtrip_ok(&v);
+    std::mem::forget(v);
+    kani::cover!(true, "witness: reached");
+    assert!(ok, "roundtrip: decode(encode(v)) == v");
+}
+
+// ---------------------------------------------------------------- O2: decode never panics
+/// tag byte concrete, everything else symbolic
+fn dec_tag<const N: usize>(tag: u8) {
+    let mut b: [u8; N] = kani::any();
+    if N > 0 {
+        b[0] = tag;
+    }
+    let r = PropertyValue::decode(&b);
+    let ok = r.is_ok();
+    std::mem::forget(r);
+    kani::cover!(true, "witness: decode returned");
+    let _ = ok;
+}
+/// variable-length tags: the embedded u32 length/count field is concrete, payload bytes symbolic
+fn dec_len<const N: usize>(tag: u8, len: u32) {
+    let mut b: [u8; N] = kani::any();
+    b[0] = tag;
+    let l = len.to_le_bytes();
+    b[1] = l[0];
+    b[2] = l[1];
+    b[3] = l[2];
+    b[4] = l[3];
+    let r = PropertyValue::decode(&b);
+    // a decoded string/blob never claims more bytes than the input holds
+    let ok = match &r {
+        Ok(PropertyValue::String(s)) => s.len() == len as usize && 5 + s.len() <= N,
+        Ok(PropertyValue::Blob(x)) => x.len() == len as usize && 5 + x.len() <= N,
+        Ok(PropertyValue::List(x)) => x.len() == len as usize,
+        Ok(PropertyValue::Map(x)) => x.len() <= len as usize,
+        Ok(_) => false,
+        Err(_) => true,
+    };
+    std::mem::forget(r);
+    kani::cover!(true, "witness: decode returned");
+    assert!(ok, "decode: result is consistent with the embedded length field");
+}
+/// list with count 1 and a concrete inner tag
+fn dec_list1<const N: usize>(inner: u8) {
+    let mut b: [u8; N] = kani::any();
+    b[0] = 7;
+    b[1] = 1;
+    b[2] = 0;
+    b[3] = 0;
+    b[4] = 0;
+    b[5] = inner;
+    let r = PropertyValue::decode(&b);
+    std::mem::forget(r);
+    kani::cover!(true, "witness: decode returned");
+}
+macro_rules! dec {
+    ($name:ident, $f:ident, $n:expr, $($arg:expr),*) => {
+        #[kani::proof]
+        #[kani::unwind(16)]
+        fn $name() {
+            $f::<$n>($($arg),*);
+        }
+    };
+}
+
+dec!(c25_o2_q_tag0_n0, dec_tag, 0, 0);
+dec!(c25_o2_q_tag0_n1, dec_tag, 1, 0);
+dec!(c25_o2_q_tag0_n2, dec_tag, 2, 0);
+dec!(c25_o2_t_tag0_n3, dec_tag, 3, 0);
+dec!(c25_o2_t_tag0_n4, dec_tag, 4, 0);
+dec!(c25_o2_t_tag0_n5, dec_tag, 5, 0);
+dec!(c25_o2_t_tag0_n6, dec_tag, 6, 0);
+dec!(c25_o2_t_tag0_n7, dec_tag, 7, 0);
+dec!(c25_o2_q_tag0_n8, dec_tag, 8, 0);
+dec!(c25_o2_q_tag0_n9, dec_tag, 9, 0);
+dec!(c25_o2_q_tag0_n10, dec_tag, 10, 0);
+dec!(c25_o2_q_tag1_n0, dec_tag, 0, 1);
+dec!(c25_o2_q_tag1_n1, dec_tag, 1, 1);
+dec!(c25_o2_q_tag1_n2, dec_tag, 2, 1);
+dec!(c25_o2_t_tag1_n3, dec_tag, 3, 1);
+dec!(c25_o2_t_tag1_n4, dec_tag, 4, 1);
+dec!(c25_o2_t_tag1_n5, dec_tag, 5, 1);
+dec!(c25_o2_t_tag1_n6, dec_tag, 6, 1);
+dec!(c25_o2_t_tag1_n7, dec_tag, 7, 1);
+dec!(c25_o2_q_tag1_n8, dec_tag, 8, 1);
+dec!(c25_o2_q_tag1_n9, dec_tag, 9, 1);
+dec!(c25_o2_q_tag1_n10, dec_tag, 10, 1);
+dec!(c25_o2_q_tag2_n0, dec_tag, 0, 2);
+dec!(c25_o2_q_tag2_n1, dec_tag, 1, 2);
+dec!(c25_o2_q_tag2_n2, dec_tag, 2, 2);
+dec!(c25_o2_t_tag2_n3, dec_tag, 3, 2);
+dec!(c25_o2_t_tag2_n4, dec_tag, 4, 2);
+dec!(c25_o2_t_tag2_n5, dec_tag, 5, 2);
+dec!(c25_o2_t_tag2_n6, dec_tag, 6, 2);
+dec!(c25_o2_t_tag2_n7, dec_tag, 7, 2);
+dec!(c25_o2_q_tag2_n8, dec_tag, 8, 2);
+dec!(c25_o2_q_tag2_n9, dec_tag, 9, 2);
+dec!(c25_o2_q_tag2_n10, dec_tag, 10, 2);
+dec!(c25_o2_q_tag3_n0, dec_tag, 0, 3);
+dec!(c25_o2_q_tag3_n1, dec_tag, 1, 3);
+dec!(c25_o2_q_tag3_n2, dec_tag, 2, 3);
+dec!(c25_o2_t_tag3_n3, dec_tag, 3, 3);
+dec!(c25_o2_t_tag3_n4, dec_tag, 4, 3);
+dec!(c25_o2_t_tag3_n5, dec_tag, 5, 3);
+dec!(c25_o2_t_tag3_n6, dec_tag, 6, 3);
+dec!(c25_o2_t_tag3_n7, dec_tag, 7, 3);
+dec!(c25_o2_q_tag3_n8, dec_tag, 8, 3);
+dec!(c25_o2_q_tag3_n9, dec_tag, 9, 3);
+dec!(c25_o2_q_tag3_n10, dec_tag, 10, 3);
+dec!(c25_o2_q_tag5_n0, dec_tag, 0, 5);
+dec!(c25_o2_q_tag5_n1, dec_tag, 1, 5);
+dec!(c25_o2_q_tag5_n2, dec_tag, 2, 5);
+dec!(c25_o2_t_tag5_n3, dec_tag, 3, 5);
+dec!(c25_o2_t_tag5_n4, dec_tag, 4, 5);
+dec!(c25_o2_t_tag5_n5, dec_tag, 5, 5);
+dec!(c25_o2_t_tag5_n6, dec_tag, 6, 5);
+dec!(c25_o2_t_tag5_n7, dec_tag, 7, 5);
+dec!(c25_o2_q_tag5_n8, dec_tag, 8, 5);
+dec!(c25_o2_q_tag5_n9, dec_tag, 9, 5);
+dec!(c25_o2_q_tag5_n10, dec_tag, 10, 5);
+dec!(c25_o2_q_tag9_n0, dec_tag, 0, 9);
+dec!(c25_o2_q_tag9_n1, dec_tag, 1, 9);
+dec!(c25_o2_q_tag9_n2, dec_tag, 2, 9);
+dec!(c25_o2_t_tag9_n3, dec_tag, 3, 9);
+dec!(c25_o2_t_tag9_n4, dec_tag, 4, 9);
+dec!(c25_o2_t_tag9_n5, dec_tag, 5, 9);
+dec!(c25_o2_t_tag9_n6, dec_tag, 6, 9);
+dec!(c25_o2_t_tag9_n7, dec_tag, 7, 9);
+dec!(c25_o2_q_tag9_n8, dec_tag, 8, 9);
+dec!(c25_o2_q_tag9_n9, dec_tag, 9, 9);
+dec!(c25_o2_q_tag9_n10, dec_tag, 10, 9);
+dec!(c25_o2_q_tag255_n0, dec_tag, 0, 255);
+dec!(c25_o2_q_tag255_n1, dec_tag, 1, 255);
+dec!(c25_o2_q_tag255_n2, dec_tag, 2, 255);
+dec!(c25_o2_t_tag255_n3, dec_tag, 3, 255);
+dec!(c25_o2_t_tag255_n4, dec_tag, 4, 255);
+dec!(c25_o2_t_tag255_n5, dec_tag, 5, 255);
+dec!(c25_o2_t_tag255_n6, dec_tag, 6, 255);
+dec!(c25_o2_t_tag255_n7, dec_tag, 7, 255);
+dec!(c25_o2_q_tag255_n8, dec_tag, 8, 255);
+dec!(c25_o2_q_tag255_n9, dec_tag, 9, 255);
+dec!(c25_o2_q_tag255_n10, dec_tag, 10, 255);
+dec!(c25_o2_q_tag4_n0, dec_tag, 0, 4);
+dec!(c25_o2_q_tag4_n1, dec_tag, 1, 4);
+dec!(c25_o2_t_tag4_n2, dec_tag, 2, 4);
+dec!(c25_o2_t_tag4_n3, dec_tag, 3, 4);
+dec!(c25_o2_q_tag4_n4, dec_tag, 4, 4);
+dec!(c25_o2_q_tag6_n0, dec_tag, 0, 6);
+dec!(c25_o2_q_tag6_n1, dec_tag, 1, 6);
+dec!(c25_o2_t_tag6_n2, dec_tag, 2, 6);
+dec!(c25_o2_t_tag6_n3, dec_tag, 3, 6);
+dec!(c25_o2_q_tag6_n4, dec_tag, 4, 6);
+dec!(c25_o2_q_tag7_n0, dec_tag, 0, 7);
+dec!(c25_o2_q_tag7_n1, dec_tag, 1, 7);
+dec!(c25_o2_t_tag7_n2, dec_tag, 2, 7);
+dec!(c25_o2_t_tag7_n3, dec_tag, 3, 7);
+dec!(c25_o2_q_tag7_n4, dec_tag, 4, 7);
+dec!(c25_o2_q_tag8_n0, dec_tag, 0, 8);
+dec!(c25_o2_q_tag8_n1, dec_tag, 1, 8);
+dec!(c25_o2_t_tag8_n2, dec_tag, 2, 8);
+dec!(c25_o2_t_tag8_n3, dec_tag, 3, 8);
+dec!(c25_o2_q_tag8_n4, dec_tag, 4, 8);
+dec!(c25_o2_q_tag4_n5_len0, dec_len, 5, 4, 0u32);
+dec!(c25_o2_t_tag4_n5_len1, dec_len, 5, 4, 1u32);
+dec!(c25_o2_q_tag4_n5_len2, dec_len, 5, 4, 2u32);
+dec!(c25_o2_t_tag4_n5_len3, dec_len, 5, 4, 3u32);
+dec!(c25_o2_t_tag4_n5_len2147483648, dec_len, 5, 4, 2147483648u32);
+dec!(c25_o2_q_tag4_n5_len4294967295, dec_len, 5, 4, 4294967295u32);
+dec!(c25_o2_t_tag4_n6_len0, dec_len, 6, 4, 0u32);
+dec!(c25_o2_t_tag4_n6_len1, dec_len, 6, 4, 1u32);
+dec!(c25_o2_t_tag4_n6_len2, dec_len, 6, 4, 2u32);
+dec!(c25_o2_t_tag4_n6_len3, dec_len, 6, 4, 3u32);
+dec!(c25_o2_t_tag4_n6_len2147483648, dec_len, 6, 4, 2147483648u32);
+dec!(c25_o2_t_tag4_n6_len4294967295, dec_len, 6, 4, 4294967295u32);
+dec!(c25_o2_q_tag4_n7_len0, dec_len, 7, 4, 0u32);
+dec!(c25_o2_t_tag4_n7_len1, dec_len, 7, 4, 1u32);
+dec!(c25_o2_q_tag4_n7_len2, dec_len, 7, 4, 2u32);
+dec!(c25_o2_t_tag4_n7_len3, dec_len, 7, 4, 3u32);
+dec!(c25_o2_t_tag4_n7_len2147483648, dec_len, 7, 4, 2147483648u32);
+dec!(c25_o2_q_tag4_n7_len4294967295, dec_len, 7, 4, 4294967295u32);
+dec!(c25_o2_t_tag4_n8_len0, dec_len, 8, 4, 0u32);
+dec!(c25_o2_t_tag4_n8_len1, dec_len, 8, 4, 1u32);
+dec!(c25_o2_t_tag4_n8_len2, dec_len, 8, 4, 2u32);
+dec!(c25_o2_t_tag4_n8_len3, dec_len, 8, 4, 3u32);
+dec!(c25_o2_t_tag4_n8_len2147483648, dec_len, 8, 4, 2147483648u32);
+dec!(c25_o2_t_tag4_n8_len4294967295, dec_len, 8, 4, 4294967295u32);
+dec!(c25_o2_t_tag4_n9_len0, dec_len, 9, 4, 0u32);
+dec!(c25_o2_t_tag4_n9_len1, dec_len, 9, 4, 1u32);
+dec!(c25_o2_t_tag4_n9_len2, dec_len, 9, 4, 2u32);
+dec!(c25_o2_t_tag4_n9_len3, dec_len, 9, 4, 3u32);
+dec!(c25_o2_t_tag4_n9_len2147483648, dec_len, 9, 4, 2147483648u32);
+dec!(c25_o2_t_tag4_n9_len4294967295, dec_len, 9, 4, 4294967295u32);
+dec!(c25_o2_q_tag4_n10_len0, dec_len, 10, 4, 0u32);
+dec!(c25_o2_t_tag4_n10_len1, dec_len, 10, 4, 1u32);
+dec!(c25_o2_q_tag4_n10_len2, dec_len, 10, 4, 2u32);
+dec!(c25_o2_t_tag4_n10_len3, dec_len, 10, 4, 3u32);
+dec!(c25_o2_t_tag4_n10_len2147483648, dec_len, 10, 4, 2147483648u32);
+dec!(c25_o2_q_tag4_n10_len4294967295, dec_len, 10, 4, 4294967295u32);
+dec!(c25_o2_q_tag6_n5_len0, dec_len, 5, 6, 0u32);
+dec!(c25_o2_t_tag6_n5_len1, dec_len, 5, 6, 1u32);
+dec!(c25_o2_q_tag6_n5_len2, dec_len, 5, 6, 2u32);
+dec!(c25_o2_t_tag6_n5_len3, dec_len, 5, 6, 3u32);
+dec!(c25_o2_t_tag6_n5_len2147483648, dec_len, 5, 6, 2147483648u32);
+dec!(c25_o2_q_tag6_n5_len4294967295, dec_len, 5, 6, 4294967295u32);
+dec!(c25_o2_t_tag6_n6_len0, dec_len, 6, 6, 0u32);
+dec!(c25_o2_t_tag6_n6_len1, dec_len, 6, 6, 1u32);
+dec!(c25_o2_t_tag6_n6_len2, dec_len, 6, 6, 2u32);
+dec!(c25_o2_t_tag6_n6_len3, dec_len, 6, 6, 3u32);
+dec!(c25_o2_t_tag6_n6_len2147483648, dec_len, 6, 6, 2147483648u32);
+dec!(c25_o2_t_tag6_n6_len4294967295, dec_len, 6, 6, 4294967295u32);
+dec!(c25_o2_q_tag6_n7_len0, dec_len, 7, 6, 0u32);
+dec!(c25_o2_t_tag6_n7_len1, dec_len, 7, 6, 1u32);
+dec!(c25_o2_q_tag6_n7_len2, dec_len, 7, 6, 2u32);
+dec!(c25_o2_t_tag6_n7_len3, dec_len, 7, 6, 3u32);
+dec!(c25_o2_t_tag6_n7_len2147483648, dec_len, 7, 6, 2147483648u32);
+dec!(c25_o2_q_tag6_n7_len4294967295, dec_len, 7, 6, 4294967295u32);
+dec!(c25_o2_t_tag6_n8_len0, dec_len, 8, 6, 0u32);
+dec!(c25_o2_t_tag6_n8_len1, dec_len, 8, 6, 1u32);
+dec!(c25_o2_t_tag6_n8_len2, dec_len, 8, 6, 2u32);
+dec!(c25_o2_t_tag6_n8_len3, dec_len, 8, 6, 3u32);
+dec!(c25_o2_t_tag6_n8_len2147483648, dec_len, 8, 6, 2147483648u32);
+dec!(c25_o2_t_tag6_n8_len4294967295, dec_len, 8, 6, 4294967295u32);
+dec!(c25_o2_t_tag6_n9_len0, dec_len, 9, 6, 0u32);
+dec!(c25_o2_t_tag6_n9_len1, dec_len, 9, 6, 1u32);
+dec!(c25_o2_t_tag6_n9_len2, dec_len, 9, 6, 2u32);
+dec!(c25_o2_t_tag6_n9_len3, dec_len, 9, 6, 3u32);
+dec!(c25_o2_t_tag6_n9_len2147483648, dec_len, 9, 6, 2147483648u32);
+dec!(c25_o2_t_tag6_n9_len4294967295, dec_len, 9, 6, 4294967295u32);
+dec!(c25_o2_q_tag6_n10_len0, dec_len, 10, 6, 0u32);
+dec!(c25_o2_t_tag6_n10_len1, dec_len, 10, 6, 1u32);
+dec!(c25_o2_q_tag6_n10_len2, dec_len, 10, 6, 2u32);
+dec!(c25_o2_t_tag6_n10_len3, dec_len, 10, 6, 3u32);
+dec!(c25_o2_t_tag6_n10_len2147483648, dec_len, 10, 6, 2147483648u32);
+dec!(c25_o2_q_tag6_n10_len4294967295, dec_len, 10, 6, 4294967295u32);
+dec!(c25_o2_q_tag7_n5_len0, dec_len, 5, 7, 0u32);
+dec!(c25_o2_q_tag7_n5_len1, dec_len, 5, 7, 1u32);
+dec!(c25_o2_q_tag7_n5_len2, dec_len, 5, 7, 2u32);
+dec!(c25_o2_q_tag7_n5_len3, dec_len, 5, 7, 3u32);
+dec!(c25_o2_q_tag7_n5_len2147483648, dec_len, 5, 7, 2147483648u32);
+dec!(c25_o2_q_tag7_n5_len4294967295, dec_len, 5, 7, 4294967295u32);
+dec!(c25_o2_q_tag7_n6_len0, dec_len, 6, 7, 0u32);
+dec!(c25_o2_a_tag7_n6_len1, dec_len, 6, 7, 1u32);
+dec!(c25_o2_a_tag7_n6_len2, dec_len, 6, 7, 2u32);
+dec!(c25_o2_a_tag7_n6_len3, dec_len, 6, 7, 3u32);
+dec!(c25_o2_a_tag7_n6_len2147483648, dec_len, 6, 7, 2147483648u32);
+dec!(c25_o2_a_tag7_n6_len4294967295, dec_len, 6, 7, 4294967295u32);
+dec!(c25_o2_q_tag7_n10_len0, dec_len, 10, 7, 0u32);
+dec!(c25_o2_a_tag7_n10_len1, dec_len, 10, 7, 1u32);
+dec!(c25_o2_a_tag7_n10_len2, dec_len, 10, 7, 2u32);
+dec!(c25_o2_a_tag7_n10_len3, dec_len, 10, 7, 3u32);
+dec!(c25_o2_a_tag7_n10_len2147483648, dec_len, 10, 7, 2147483648u32);
+dec!(c25_o2_a_tag7_n10_len4294967295, dec_len, 10, 7, 4294967295u32);
+dec!(c25_o2_q_tag8_n5_len0, dec_len, 5, 8, 0u32);
+dec!(c25_o2_q_tag8_n5_len1, dec_len, 5, 8, 1u32);
+dec!(c25_o2_q_tag8_n5_len2, dec_len, 5, 8, 2u32);
+dec!(c25_o2_q_tag8_n5_len3, dec_len, 5, 8, 3u32);
+dec!(c25_o2_q_tag8_n5_len2147483648, dec_len, 5, 8, 2147483648u32);
+dec!(c25_o2_q_tag8_n5_len4294967295, dec_len, 5, 8, 4294967295u32);
+dec!(c25_o2_q_tag8_n6_len0, dec_len, 6, 8, 0u32);
+dec!(c25_o2_a_tag8_n6_len1, dec_len, 6, 8, 1u32);
+dec!(c25_o2_a_tag8_n6_len2, dec_len, 6, 8, 2u32);
+dec!(c25_o2_a_tag8_n6_len3, dec_len, 6, 8, 3u32);
+dec!(c25_o2_a_tag8_n6_len2147483648, dec_len, 6, 8, 2147483648u32);
+dec!(c25_o2_a_tag8_n6_len4294967295, dec_len, 6, 8, 4294967295u32);
+dec!(c25_o2_q_tag8_n10_len0, dec_len, 10, 8, 0u32);
+dec!(c25_o2_a_tag8_n10_len1, dec_len, 10, 8, 1u32);
+dec!(c25_o2_a_tag8_n10_len2, dec_len, 10, 8, 2u32);
+dec!(c25_o2_a_tag8_n10_len3, dec_len, 10, 8, 3u32);
+dec!(c25_o2_a_tag8_n10_len2147483648, dec_len, 10, 8, 2147483648u32);
+dec!(c25_o2_a_tag8_n10_len4294967295, dec_len, 10, 8, 4294967295u32);
+dec!(c25_o2_q_list1_inner0_n15, dec_list1, 15, 0);
+dec!(c25_o2_t_list1_inner1_n15, dec_list1, 15, 1);
+dec!(c25_o2_q_list1_inner2_n15, dec_list1, 15, 2);
+dec!(c25_o2_t_list1_inner3_n15, dec_list1, 15, 3);
+dec!(c25_o2_q_list1_inner4_n15, dec_list1, 15, 4);
+dec!(c25_o2_t_list1_inner5_n15, dec_list1, 15, 5);
+dec!(c25_o2_t_list1_inner6_n15, dec_list1, 15, 6);
+dec!(c25_o2_a_list1_inner7_n15, dec_list1, 15, 7);
+dec!(c25_o2_a_list1_inner8_n15, dec_list1, 15, 8);
+dec!(c25_o2_t_list1_inner9_n15, dec_list1, 15, 9);
+
+// ---------------------------------------------------------------- O3: allocation bounded by the input length
+static mut INPUT_LEN: usize = 0;
+fn with_capacity_monitor<T>(cap: usize) -> Vec<T> {
+    unsafe {
+        assert!(cap <= INPUT_LEN, "decode: allocation request bounded by input length");
+    }
+    Vec::new()
+}
+fn alloc_bounded<const N: usize>(tag: u8) {
+    let mut b: [u8; N] = kani::any();
+    b[0] = tag;
+    unsafe {
+        INPUT_LEN = N;
+    }
+    let r = PropertyValue::decode(&b);
+    std::mem::forget(r);
+    kani::cover!(true, "witness: decode returned");
+}
+macro_rules! alloc {
+    ($name:ident, $n:expr, $tag:expr) => {
+        #[kani::proof]
+        #[kani::unwind(16)]
+        #[kani::stub(std::vec::Vec::with_capacity, with_capacity_monitor)]
+        fn $name() {
+            alloc_bounded::<$n>($tag);
+        }
+    };
+}
+alloc!(c25_o3_q_alloc_list_n5, 5, 7);
+alloc!(c25_o3_q_alloc_map_n5, 5, 8);
+alloc!(c25_o3_q_alloc_string_n5, 5, 4);
+alloc!(c25_o3_q_alloc_blob_n5, 5, 6);
+alloc!(c25_o3_t_alloc_list_n6, 6, 7);
